@@ -167,7 +167,7 @@ func prepDataVS(a Tensor, b interface{}, reuse Tensor) (dataA, dataB, dataReuse 
 		dataReuse = reuse.hdr()
 	}
 
-	if a.IsScalar() {
+	if a.IsScalar() && !a.RequiresIterator() && (reuse == nil || !reuse.RequiresIterator()) {
 		return
 	}
 	useIter = a.RequiresIterator() ||
@@ -191,7 +191,7 @@ func prepDataSV(a interface{}, b Tensor, reuse Tensor) (dataA, dataB, dataReuse 
 	}
 
 	// get iterator
-	if b.IsScalar() {
+	if b.IsScalar() && !b.RequiresIterator() && (reuse == nil || !reuse.RequiresIterator()) {
 		return
 	}
 	useIter = b.RequiresIterator() ||
